@@ -52,6 +52,19 @@ Proof.
     exists a. split; [apply in_clause_envs; exists tup; split; assumption | exact H].
 Qed.
 
+Lemma nodup_app_r : forall (A : Type) (a b : list A), NoDup (a ++ b) -> NoDup b.
+Proof. intros A a b. induction a as [|x a IH]; cbn [app]; intro H; [exact H|]. inversion H; subst. apply IH. assumption. Qed.
+Lemma nodup_app_l : forall (A : Type) (a b : list A), NoDup (a ++ b) -> NoDup a.
+Proof.
+  intros A a b. induction a as [|x a IH]; cbn [app]; intro H; [constructor|]. inversion H as [|? ? Hn Hd]; subst. constructor.
+  - intro Hin. apply Hn. apply in_or_app. left. exact Hin.
+  - apply IH. exact Hd.
+Qed.
+Lemma nodup_app_disj : forall (A : Type) (a b : list A) x, NoDup (a ++ b) -> In x a -> ~ In x b.
+Proof.
+  intros A a b x. induction a as [|y a IH]; cbn [app]; intros H Hx; [destruct Hx|]. inversion H as [|? ? Hn Hd]; subst.
+  destruct Hx as [->|Hx]; [intro Hb; apply Hn; apply in_or_app; right; exact Hb | apply IH; assumption].
+Qed.
 Lemma cond_binds_ids : forall c y, In y (cond_binds c) -> In y (cond_ids c).
 Proof.
   intros [p xs|x f xs|p v|v t] y H; cbn [cond_binds cond_ids] in *; try (destruct H; fail).
